@@ -903,6 +903,13 @@ class Interp(ExprMixin, LoopMixin, CallMixin):
     def exc_isinstance(self, exc, tv):
         """Is abstract exception `exc` an instance of the class value `tv`?"""
         ecls = exc.cls
+        tv = self.resolve(tv)
+        if isinstance(tv, (TupleV, ListV)) and getattr(tv, 'items', None) is not None:
+            # except <name bound to a tuple of classes>
+            return any(self.exc_isinstance(exc, x) for x in tv.items)
+        if not isinstance(tv, (ClassV, ExtV)):
+            self.note_unknown(None, f'handler type {tv!r} is not a class the analysis knows')
+            return False
         if isinstance(tv, ClassV):
             return hasattr(ecls, 'mro') and hasattr(ecls, 'qualname') and tv.ci in ecls.mro
         if isinstance(tv, ExtV):
